@@ -31,9 +31,12 @@ ARGPOOL = [0, 1, "a", None, {"T": [1, 2]}, "BOOM"]
 
 @st.composite
 def programs(draw: Any) -> Dict[str, Any]:
+    # a fifth of the programs may index a result with a key it does not have: such a run fails in the scheduler, with
+    # an exception that is not a node failure
+    bad_ = 1 if gen.chance(draw, 0.2) else 0
     P = draw(gen.flat_prog(min_sites=3, max_sites=8, max_deps=3, resources=gen.RES, dep_kinds=("pos", "kw", "flag"),
                            n_setup=draw(st.integers(0, 2)), n_params=3, prio_range=(-1, 2), seq_rate=0.1,
-                           mark_roots=False))
+                           mark_roots=False, index_rate=0.2 * bad_, bad_index_rate=0.25 * bad_))
     P["params"] = [["p0", None], ["p1", {"d": draw(st.sampled_from([5, "d1", None]))}], ["p2", {"d": draw(st.sampled_from([7, "d2"]))}]]
     for s in P["body"]:
         a = s.get("active")
@@ -74,7 +77,7 @@ def _classify(case: Dict[str, Any], I: hist.Interp, res: CaseResult) -> None:
     res.cls("async" if case.get("async") else "sync")
     for k in {o["op"] for o in case["ops"]}:
         res.cls("op-" + k)
-    for k in ("failed-ops", "rerun-after-failure", "rerun-after-success", "cancelled-runs", "cache-write-failed"):
+    for k in ("failed-ops", "rerun-after-failure", "rerun-after-success", "cancelled-runs", "cache-write-failed", "composed-call-omits-node-input"):
         if I.stats[k]:
             res.cls(k)
     res.note = {"ops": len(case["ops"]), "failed_ops": I.stats["failed-ops"]}
@@ -154,11 +157,20 @@ def make_machine(H: Harness) -> Any:
         def compose(self, data: Any) -> None:
             sites = self.I.M.sites
             # setup sites are not offered as inputs: a setup node fed by a DAG input is rejected by tawazi's own rules
-            cand = [s for s in sites if not self.I.M.spec[s].get("setup")]
+            M_ = self.I.M
+            cand = [s for s in sites if not M_.spec[s].get("setup")]
             ins = data.draw(st.lists(st.sampled_from(cand + ["p0", "p1"]), min_size=0, max_size=2, unique=True))
+            # ... except as the LAST input when no other setup node depends on it
+            lone = [s for s in sites if M_.spec[s].get("setup") and not any(M_.spec[d].get("setup") for d in M_.desc[s])
+                    and not any(s in M_.anc[i_] or i_ in M_.anc[s] for i_ in ins if i_ in sites)]
+            if lone and len(ins) < 2 and data.draw(st.booleans()):
+                ins = ins + [data.draw(st.sampled_from(lone))]
             outs = data.draw(st.lists(st.sampled_from([s for s in sites if s not in ins]), min_size=1, max_size=2, unique=True))
             vals = [data.draw(st.sampled_from([0, 1, "w", None])) for _ in ins]
-            self.do({"op": "compose", "inst": self._inst(data), "inputs": ins, "outputs": outs, "vals": vals})
+            op = {"op": "compose", "inst": self._inst(data), "inputs": ins, "outputs": outs, "vals": vals}
+            if ins and ins[-1] in sites and data.draw(st.booleans()):
+                op["omit"] = True  # the composed DAG is called without a value for its last input
+            self.do(op)
 
         @rule(data=st.data())
         def config(self, data: Any) -> None:
